@@ -78,11 +78,11 @@ def check_case(inputs, cmps, job, registry):
 def falsify(ctx):
     rng = ctx.rng("fals")
     registry = stages.make_registry()
-    focus = [[tuple(x) for x in m["inputs"]] for m in ctx.focus if m and "inputs" in m]
+    focus = common.focus_cases(ctx)
     n = ctx.n(300, 6000)
     for i in range(len(focus) + n):
-        inputs = focus[i] if i < len(focus) else common.gen_inputs(rng, styled_p=0.2)
-        cmps = common.cmps_choice(rng)
+        inputs = focus[i][0] if i < len(focus) else common.gen_inputs(rng, styled_p=0.2)
+        cmps = (focus[i][1] if i < len(focus) else None) or common.cmps_choice(rng)
         job = common.gen_job(rng)
         job["preamble"] = None
         try:
